@@ -12,10 +12,12 @@
      Create(r.Pattern, r.URL); the loop ends after that factory whatever Create
        answered; on success the idle-close task is started unless r.KeepAlive.
 
-   What a factory does with its arguments is the interface contract: it builds
-   a media.Stream under localPath (NewStream canonicalises the path it is given)
-   and registers it.  Whether Create succeeds (camera reachable, ...) is
-   external: the field [f_ok].  No proofs in this file. *)
+   What a factory does with its arguments is the interface contract [honest]: it
+   publishes under the canonical form of localPath.  The registry key a factory
+   really uses is its field [f_key]; the keys of the two factories of this
+   development (NewStream-based, service/rtsp NewPullClient) are modelled below
+   and proved honest in Proofs/.  Whether Create succeeds (camera reachable, ...)
+   is external: the field [f_ok].  No proofs in this file. *)
 From Coq Require Import ZArith List Bool.
 From V Require Import Bytes StrGo Route.
 Import ListNotations.
@@ -40,8 +42,27 @@ Definition publish (g : registry) (p : bytes) (id : Z) : registry := reg_put g (
 Record factory := {
   f_can : bytes -> bool;              (* Can(remoteURL) *)
   f_ok : bytes -> bytes -> bool;      (* Create(localPath, remoteURL) succeeds — external *)
-  f_real : bool                       (* a network factory: a camera sees the URL it is asked for *)
+  f_real : bool;                      (* a network factory: a camera sees the URL it is asked for *)
+  f_key : bytes -> bytes -> bytes     (* the registry key under which Create(localPath, remoteURL) publishes *)
 }.
+
+(* the contract of the interface: a factory publishes under its localPath argument
+   (in the registry's canonical form) and nothing else *)
+Definition honest (f : factory) : Prop := forall lp url, f_key f lp url = canonical_path lp.
+
+(* the keys the two kinds of factory of this development publish under:
+   - a factory that hands localPath to media.NewStream (NewStream canonicalises, Regist stores under s.path);
+   - service/rtsp NewPullClient: path := CanonicalPath(localPath); if path == "" { path = CanonicalPath(url.Path) }
+     else only validated (url.Parse("rtsp://localhost"+path), result dropped); NewStream(path). [url_path] is
+     url.Parse(remoteURL).Path, external. *)
+Definition newstream_key (lp url : bytes) : bytes := canonical_path lp.
+Definition pull_client_path (url_path : bytes -> bytes) (lp url : bytes) : bytes :=
+  match canonical_path lp with
+  | [] => canonical_path (url_path url)
+  | path => path
+  end.
+Definition rtsp_key (url_path : bytes -> bytes) (lp url : bytes) : bytes :=
+  canonical_path (pull_client_path url_path lp url).
 
 Fixpoint first_can (fs : list factory) (url : bytes) (i : nat) : option (nat * factory) :=
   match fs with
@@ -121,7 +142,8 @@ Inductive pout :=
 | POUnit
 | POId (id : Z)
 | POOpt (o : option Z)
-| POReq (o : goc) (sid : option Z) (seen : list bytes)  (* outcome, the stream returned, URLs a camera was asked for *)
+| POReq (o : goc) (sid : option Z) (seen : list bytes) (reg : registry)
+    (* outcome, the stream returned, URLs a camera was asked for, the whole registry afterwards *)
 | POAll (t : table).
 
 (* the stream a request returns, and what the camera saw *)
@@ -134,15 +156,23 @@ Definition goc_seen (fs : list factory) (o : goc) : list bytes :=
   | _ => []
   end.
 
-(* effect of a request on the registry: the factory publishes under the localPath it was given *)
-Definition after_req (st : pstate) (o : goc) : pstate :=
+(* effect of a request on the registry: the factory that created the stream publishes it.
+   [keyfn]: under which key — the code: the factory's own [f_key]; the specification: the
+   canonical form of the localPath it was handed, i.e. the canonical requested path *)
+Definition key_code (fs : list factory) (fi : nat) (lp url : bytes) : bytes :=
+  match nth_error fs fi with Some f => f_key f lp url | None => canonical_path lp end.
+Definition key_spec (fs : list factory) (fi : nat) (lp url : bytes) : bytes := canonical_path lp.
+
+Definition after_req (keyfn : list factory -> nat -> bytes -> bytes -> bytes) (fs : list factory)
+    (st : pstate) (o : goc) : pstate :=
   match o with
-  | GCreated lp _ _ _ =>
-      {| ps_reg := publish (ps_reg st) lp (ps_next st); ps_tbl := ps_tbl st; ps_next := ps_next st + 1 |}
+  | GCreated lp url fi _ =>
+      {| ps_reg := reg_put (ps_reg st) (keyfn fs fi lp url) (ps_next st); ps_tbl := ps_tbl st; ps_next := ps_next st + 1 |}
   | _ => st
   end.
 
 Definition pstep_with (goc_fn : registry -> table -> list factory -> bytes -> goc)
+    (keyfn : list factory -> nat -> bytes -> bytes -> bytes)
     (url_ok : bytes -> bool) (fs : list factory) (st : pstate) (o : pop) : pstate * pout :=
   match o with
   | PSave r => ({| ps_reg := ps_reg st; ps_tbl := save url_ok (ps_tbl st) r; ps_next := ps_next st |}, POUnit)
@@ -155,13 +185,14 @@ Definition pstep_with (goc_fn : registry -> table -> list factory -> bytes -> go
        POOpt (media_get (ps_reg st) p))
   | PReq p =>
       let o := goc_fn (ps_reg st) (ps_tbl st) fs p in
-      (after_req st o, POReq o (goc_sid (ps_next st) o) (goc_seen fs o))
+      let st1 := after_req keyfn fs st o in
+      (st1, POReq o (goc_sid (ps_next st) o) (goc_seen fs o) (ps_reg st1))
   | PGet p => (st, POOpt (media_get (ps_reg st) p))
   | PAll => (st, POAll (ps_tbl st))
   end.
 
-Definition pstep := pstep_with get_or_create.       (* the code *)
-Definition pstep_spec := pstep_with spec_goc.       (* the specification *)
+Definition pstep := pstep_with get_or_create key_code.    (* the code, with the factories as they are *)
+Definition pstep_spec := pstep_with spec_goc key_spec.    (* the specification *)
 
 Fixpoint prun_with (step : pstate -> pop -> pstate * pout) (st : pstate) (ops : list pop) : pstate * list pout :=
   match ops with
@@ -201,12 +232,18 @@ Fixpoint lbytes_eqb (a b : list bytes) : bool :=
   | x :: a', y :: b' => bytes_eqb x y && lbytes_eqb a' b'
   | _, _ => false
   end.
+Fixpoint reg_eqb (a b : registry) : bool :=
+  match a, b with
+  | [], [] => true
+  | (k, i) :: a', (k', i') :: b' => bytes_eqb k k' && (i =? i') && reg_eqb a' b'
+  | _, _ => false
+  end.
 Definition pout_eqb (a b : pout) : bool :=
   match a, b with
   | POUnit, POUnit => true
   | POId x, POId y => x =? y
   | POOpt x, POOpt y => optz_eqb x y
-  | POReq o s n, POReq o' s' n' => goc_eqb o o' && optz_eqb s s' && lbytes_eqb n n'
+  | POReq o s n g, POReq o' s' n' g' => goc_eqb o o' && optz_eqb s s' && lbytes_eqb n n' && reg_eqb g g'
   | POAll t, POAll t' => list_eqb_route t t'
   | _, _ => false
   end.
